@@ -25,7 +25,7 @@ RULE = ("exhaustive: every table type (every bnpdataclass of bionumpy.datatypes 
         "dynamic_concatenate, apply_to_npdataclass; history pairs. sort_by orders numeric fields by value and text fields as "
         "byte strings. Non-trivial = >= 2 ops on a table with >= 2 column kinds, or an empty / single-row operand")
 EXHAUSTIVE = {"quick": False, "thorough": False}
-MODEL_OPS = {"program", "roundtrip", "dict"}
+MODEL_OPS = {"program", "roundtrip", "dict", "pick", "sort_float"}
 ASSUMPTIONS = [
     "per-column indexing / concatenation (NumPy, npstructures RaggedArray, EncodedArray, StringArray) has its list-level meaning",
     "Python-level index normalisation (negative ints, slice.indices) is the runtime's: the model receives index lists",
@@ -49,7 +49,8 @@ MANIFEST = {
             "except the explicitly listed cells of the recorded findings (20 cells keep another numeric dtype, 31 store the argument "
             "unconverted: construct_census; no listed cell is stale: construct_whitelists_tight). The whole program interpreter on columns "
             "equals the row-wise interpreter on entries, in rows, width and failure (run_refines_rows; the row interpreter is the "
-            "Spec side the driver runs). Correspondence: the real "
+            "Spec side the driver runs); table[i] for an integer i = rows[i], IndexError exactly outside -n <= i < n "
+            "(pyIndex_none_iff, pick_refines_rows). Correspondence: the real "
             "classes of bionumpy.datatypes and dynamically made ones with every column kind, 0..N rows, single operations "
             "exhaustively and random programs, nested classes up to depth 3, against the Lean model, the Lean row-level spec and a "
             "pure-Python list-of-tuples oracle; every final conversion (tolist, iteration, dict, pandas, entry tuples) must "
@@ -68,6 +69,9 @@ DYN = [
     ("D_all", ["str", "sid", "int", "float", "bool", "opt", "li", "dna", "strand", "inner"]),
     ("D_num", ["int", "float"]),
     ("D_txt", ["sid", "str"]),
+    # tables whose columns are ALL text / encoded text (no numeric or identifier column raises on their behalf)
+    ("D_seq", ["str", "dna"]),
+    ("D_one", ["str"]),
     ("D_rag", ["int", "li", "dna"]),
     ("D_nest", ["int", "inner", "sid"]),
     # integers beyond 2**53 (ids, hashes) and 32-bit edges, handed over as list / int64 / object array / pandas object column
@@ -426,6 +430,14 @@ def _skey(kind, code):
     return v.encode() if isinstance(v, str) else v
 
 
+def _frank(x):
+    """the place of a float among the values np.argsort orders: -inf < ... < -0.0 = 0.0 < ... < inf < nan (NaN last)"""
+    x = float(x)
+    if x != x:
+        return [2, 0.0]
+    return [0, x + 0.0] if x != 0 else [0, 0.0]
+
+
 def _apply_rows(width, rows, op):
     k = op["k"]
     n = len(rows)
@@ -492,6 +504,20 @@ def oracle(c):
     if c["op"] == "sort_text":
         order = sorted(range(len(c["texts"])), key=lambda i: c["texts"][i].encode())
         return {"ids": order, "texts": [c["texts"][i] for i in order]}
+    if c["op"] == "pick":
+        width = len(c["cols"])
+        rows = [list(r) for r in zip(*c["cols"])]
+        try:
+            w, rows = _run_rows(width, rows, c["ops"])
+        except Raise:
+            return SKIP
+        try:
+            return {"row": rows[c["i"]]}          # Python's own list indexing: IndexError outside -n <= i < n
+        except IndexError:
+            return {"err": "index"}
+    if c["op"] == "sort_float":
+        keys = [float(x) for x in c["keys"]]
+        return {"ranks": sorted(_frank(k) for k in keys)}
     if c["op"] == "add_twice":
         return {"each_honours_its_type": True}
     if c["op"] == "sort_long":
@@ -697,6 +723,36 @@ def cases(tier, rng):
             yield {"op": "construct", "type": tname, "n": 2, "bad": {"col": j, "what": "len"}}
             if k in ("int", "float", "opt", "dna", "strand"):
                 yield {"op": "construct", "type": tname, "n": 2, "bad": {"col": j, "what": "content"}}
+    # 1h. ONE entry by integer index, t[i] and column[i], i from below -len to above len-1 (Python int / NumPy integer),
+    #     on the table as built and on fresh, never-read selections of it (slice, reversed, index list, mask, two in a row)
+    for tname in names:
+        kinds = m["classes"][tname][1]
+        dyn = tname.startswith("D_")
+        for n in ((0, 1, 3, 5) if dyn else (0, 3)):
+            cols = [[10 + 3 * i for i in range(n)] for _ in kinds]
+            ids = list(range(n))
+            sels = [[], [{"k": "take", "ix": ids[1:4], "py": ["slice", 1, 4, None]}],
+                    [{"k": "take", "ix": ids[::-1], "py": ["slice", None, None, -1]}],
+                    [{"k": "take", "ix": [j for j in (0, 2, 3) if j < n], "py": ["list"]}],
+                    [{"k": "mask", "m": [j % 3 != 1 for j in range(n)]}],
+                    [{"k": "take", "ix": ids[::2], "py": ["slice", None, None, 2]}, {"k": "take", "ix": list(range(len(ids[::2])))[::-1], "py": ["slice", None, None, -1]}]]
+            for si, sel in enumerate(sels):
+                ln = len(_run_rows(len(kinds), [list(r) for r in zip(*cols)], sel)[1])
+                for i in range(-ln - 3, ln + 3):
+                    if not dyn and -ln < i < ln - 1 and i != 0:
+                        continue                      # library types: the borders and one inside
+                    yield {"op": "pick", "type": tname, "cols": cols, "ops": sel, "i": i, "np": (i + si) % 2 == 0,
+                           "by": "column" if (dyn and (i + n) % 2 == 0) else "table"}
+    # 1i. float keys with the values an order-by-comparison shortcut gets wrong: NaN (every comparison False), +-inf,
+    #     -0.0 / 0.0 (equal, different bits): every sequence up to length 3 (4 thorough), longer ones sampled
+    FV = ["nan", "-inf", "-0.0", "0.0", "1.0", "2.5", "inf"]
+    for ln in range(0, (5 if big else 4)):
+        for sel in itertools.product(FV, repeat=ln):
+            yield {"op": "sort_float", "type": "D_num", "keys": list(sel), "fresh": ln % 2 == 1}
+    for _ in range(4000 if big else 400):
+        ln = rng.randrange(4, 10)
+        ks = [rng.choice(FV + ["3.0", "4.0", "5.0"]) for _ in range(ln)]
+        yield {"op": "sort_float", "type": "D_num", "keys": ks, "fresh": rng.random() < 0.5}
     # 1g. fresh, un-materialised views handed straight to every operation: t[[2,0,1]], t[mask], t[1:], t[::-1] then each single op
     vtypes = [n for n in names if n.startswith("D_")] + [n for n in ("Interval", "Bed6", "SequenceEntry", "BedGraph") if n in names]
     fi = 0
@@ -964,6 +1020,54 @@ def impl(c):
             return {"text": got, "encoding_is_declared": bool(col.encoding == D)}
         except Exception as e:
             return {"err": "raise", "exc": type(e).__name__}
+    if c["op"] == "pick":
+        i = np.int64(c["i"]) if c["np"] else int(c["i"])
+
+        def selected():
+            t = _table(m, c["type"], c["cols"])
+            for op in c["ops"]:                       # fresh: nothing reads the selection before it is indexed
+                t, _, _ = _apply_impl(m, t, op, kinds, names)
+            return t
+        try:
+            if c["by"] == "table":
+                try:
+                    e = selected()[i]
+                except IndexError:
+                    return {"err": "index"}
+                return {"row": [canon_cell(k, _py(getattr(e, nm))) for k, nm in zip(kinds, names)]}
+            row, errs = [], 0
+            for k, nm in zip(kinds, names):
+                try:
+                    row.append(canon_cell(k, _py(getattr(selected(), nm)[i])))
+                except IndexError:
+                    errs += 1
+            if errs == len(kinds):
+                return {"err": "index"}
+            if errs:
+                return {"err": "mixed", "row": row}
+            return {"row": row}
+        except Exception as e:
+            return {"err": "raise", "exc": type(e).__name__}
+    if c["op"] == "sort_float":
+        from bionumpy.bnpdataclass import make_dataclass
+        if "sortf_cls" not in _CACHE:
+            _CACHE["sortf_cls"] = make_dataclass([("k", float), ("i", int), ("tag", str)], name="SortF")
+        try:
+            keys = [float(x) for x in c["keys"]]
+            n = len(keys)
+            t = _CACHE["sortf_cls"](np.array(keys, dtype=float), list(range(n)), ["t%d" % j for j in range(n)])
+            if c.get("fresh") and n:
+                t = t[np.arange(n)][::-1][::-1]       # an un-materialised view of the same rows
+            before = [float(x).hex() for x in t.k] if not c.get("fresh") else None
+            r = t.sort_by("k")
+            ids = [int(x) for x in r.i]
+            out = {"ids": ids, "ranks": [_frank(x) for x in r.k.tolist()], "rows_intact": r.tag.tolist() == ["t%d" % j for j in ids]
+                   and [float(x).hex() for x in r.k.tolist()] == [keys[j].hex() for j in ids] and sorted(ids) == list(range(n))}
+            if before is not None and [float(x).hex() for x in t.k] != before:
+                out["operand_changed"] = True
+            return out
+        except Exception as e:
+            return {"err": "raise", "exc": type(e).__name__}
     if c["op"] == "sort_text":
         from bionumpy.bnpdataclass import make_dataclass
         key = ("sort_cls", c["kind"])
@@ -1115,6 +1219,15 @@ def _same(c, got, ref):
     return got["rows"] == _expected_rows(c, ref["rows"]) and got["width"] == ref["width"]
 
 
+def _same_pick(c, got, ref):
+    if not isinstance(got, dict):
+        return False
+    if "err" in ref:
+        return got.get("err") == ref["err"]
+    kinds = _mods()["classes"][c["type"]][1]
+    return got.get("row") == [canon_cell(k, cell(k, s_)) for k, s_ in zip(kinds, ref["row"])]
+
+
 def agree(c, got, exp):
     if c["op"] == "construct_enc":
         if isinstance(got, dict) and got.get("err") == "raise":
@@ -1123,6 +1236,11 @@ def agree(c, got, exp):
         return isinstance(got, dict) and got.get("text") == want and got.get("encoding_is_declared") is True
     if c["op"] == "sort_text":
         return core.canon(got) == core.canon(exp)
+    if c["op"] == "pick":
+        return _same_pick(c, got, exp)
+    if c["op"] == "sort_float":
+        return isinstance(got, dict) and got.get("ranks") == exp["ranks"] and got.get("rows_intact") is True \
+            and "operand_changed" not in got
     if c["op"] == "add_twice":
         return isinstance(got, dict) and all(tag in got and all(got[tag][f] is True for f in ("ok_cls", "ok_vals", "declared"))
                                              for tag in ("first", "second"))
@@ -1173,12 +1291,21 @@ def impl_live(c):
 
 
 def agree_spec(c, s, exp):
+    if c["op"] == "sort_float":      # the model sorts ids by rank: its rank sequence is the oracle's
+        rk = sorted(set(map(tuple, exp["ranks"])))
+        return isinstance(s, dict) and "rows" in s and \
+            [rk.index(tuple(_frank(c["keys"][r[0]]))) for r in s["rows"]] == [rk.index(tuple(x)) for x in exp["ranks"]]
     if c["op"] == "sort_text":
         return isinstance(s, dict) and "rows" in s and [r[0] for r in s["rows"]] == exp["ids"]
     return core.canon(s) == core.canon(exp)
 
 
 def agree_model(c, got, m):
+    if c["op"] == "pick":
+        return _same_pick(c, got, m)
+    if c["op"] == "sort_float":      # same order up to the order inside a tie group (equal keys; NumPy's sort is not stable)
+        return isinstance(got, dict) and "rows" in m and "ids" in got and \
+            [_frank(c["keys"][j]) for j in got["ids"]] == [_frank(c["keys"][r[0]]) for r in m["rows"]]
     if c["op"] == "sort_text":
         return isinstance(got, dict) and "rows" in m and got.get("ids") == [r[0] for r in m["rows"]] and "rows_torn" not in got
     if c["op"] == "dict":
@@ -1215,6 +1342,14 @@ def model_request(c):
         return {"op": "roundtrip", "rows": c["rows"], "width": c["width"]}
     if c["op"] == "dict":
         return {"op": "dict", "schema": c["schema"]}
+    if c["op"] == "pick":
+        return {"op": "pick", "cols": c["cols"], "i": c["i"],
+                "ops": [{k: v for k, v in op.items() if k not in ("py", "kinds", "kind")} for op in c["ops"]]}
+    if c["op"] == "sort_float":
+        n = len(c["keys"])
+        rk = sorted(set(tuple(_frank(x)) for x in c["keys"]))
+        keys = [[j, rk.index(tuple(_frank(c["keys"][j])))] for j in range(n)]
+        return {"op": "program", "cols": [list(range(n)), list(range(n))], "ops": [{"k": "sort", "j": 0, "keys": keys}]}
     if c["op"] == "sort_text":
         n = len(c["texts"])
         order = sorted(set(t.encode() for t in c["texts"]))
@@ -1230,6 +1365,14 @@ def finding_key(c, got, exp):
         return "construct:encoded-in-other-alphabet-" + ("silently-different-text" if "text" in got else "other")
     if c["op"] == "sort_text":
         return "sort_by:text-order-" + c["kind"] + ("-one-letter-rows" if c.get("flat") else "")
+    if c["op"] == "pick":
+        if isinstance(got, dict) and got.get("exc") == "TypeError" and "li" in kinds and c["ops"] and "err" not in exp:
+            return "iter:int-index-on-sliced-ragged-column"      # npstructures' int(1-element array) on a plain ragged view
+        if isinstance(exp, dict) and "err" in exp:
+            return "index:entry-out-of-range-" + ("accepted" if isinstance(got, dict) and "row" in got else "other-error")
+        return "index:entry-" + ("raises" if isinstance(got, dict) and "err" in got else "wrong-row")
+    if c["op"] == "sort_float":
+        return "sort_by:float-key-" + ("raises" if isinstance(got, dict) and "err" in got else "special-values-order")
     if c["op"] == "add_twice":
         return "add_fields:history-" + c["k1"] + "-then-" + c["k2"]
     if c["op"] == "sort_long":
